@@ -130,6 +130,10 @@ def main(tier):
         res.violation({'engine': 'J', 'harness': 'reprint', 'class': cls},
                       're-printed template behaves differently: %s | original %r | printed %r (%d programs)' % (desc, t[:300], t2[:300], len(items)),
                       {'wxml': t, 'printed': t2})
+    from checks import mixed
+    from mirsym.mir import Module
+    res.coverage['kernel_obligations'] = mixed.run_property(res, Module(common.mir_dump('tc')), 'C14', tier)
+    res.engines.append('M (mixed-text assembler Value::parse_until_before from MIR)')
     res.coverage.update({'programs': len(keep), 'sites': nsites, 'disagreements_checked': res.coverage.get('disagreements_checked', 0),
                          'supporting_not_solver_decided': {k: v[:5] for k, v in support.items()}, 'supporting_counts': {k: len(v) for k, v in support.items()},
                          'explanation': 'pairwise: structure of the protocol trees exactly; value terms, guards and paths by z3 for all data / scope values / update trees'})
